@@ -54,6 +54,12 @@ class Pipe:
             else:
                 un = self.tr['summary']['untranslated']
                 self.res.oblige('T:translate', True)
+                try:
+                    gold = json.load(open(os.path.join(VERIF, 'spec', 'golden.json')))
+                    self.res.oblige('T:signature-search-loop-shape', self.tr['summary'].get('ohbLoopHash') == gold.get('ohb_loop_hash'),
+                                    'the AST of the while loop of ObjectHeaderBase::read changed; the hand model Blf.syncLoop may no longer match')
+                except Exception as e:
+                    self.res.oblige('T:signature-search-loop-shape', False, str(e))
                 for k, v in un.items():
                     self.res.oblige('T:grammar:' + k, False, v)
         return self.tr
@@ -1714,6 +1720,244 @@ def classify_hostile(f, a, ma, kind=''):
     return oc + ':' + why
 
 
+# ================================================================================================ schedules
+def build_sched_harness(pipe, res, tsan=False):
+    tr = pipe.regenerate()
+    V = os.path.join(VERIF, 'harness', 'vshim', 'vshim.h')
+    fl = ['-O1', '-g', '-fsanitize=address,undefined', '-fno-sanitize-recover=all', '-fno-omit-frame-pointer']
+    a, f = lib.build_lib('shim', fl, force_include=V)
+    if a is None:
+        res.oblige('D:build-lib-shim', False, str(f)[:1500])
+        return None
+    gen = sorted(glob_mod.glob(os.path.join(tr['cpp'], 'gen_reflect_*.cpp')))
+    exe, f = lib.build_exe('sched_harness', [os.path.join(VERIF, 'harness', 'sched_harness.cpp'), os.path.join(VERIF, 'harness', 'vshim', 'vshim.cpp')] + gen, a, fl, force_include=V)
+    if exe is None:
+        res.oblige('D:build-sched-harness', False, str(f)[:1500])
+    return exe
+
+
+def parse_trace(ans):
+    t = ans.split('trace=')[1].split()[0] if 'trace=' in ans else ''
+    return [tuple(int(x) for x in d.split(':')) for d in t.split(';') if d]
+
+
+def sched_requests(base, trace, bound_alts=True):
+    """all schedules that deviate once from the recorded one (systematic, one deviation = preemption bound 1)"""
+    reqs = []
+    chosen = [d[1] for d in trace]
+    for i, (n, c, cur) in enumerate(trace):
+        for alt in range(n):
+            if alt != c:
+                reqs.append((base + ' choices=' + ','.join(str(x) for x in chosen[:i] + [alt]), i, alt))
+    return reqs
+
+
+def sched_sessions(res, pipe, fexe, cexe, sexe, summary, exact, rng):
+    """-> list of dicts {kind, req, native (expected), runs [(label, answer)]}"""
+    import filechecks as fc
+    classes = [c for c in creatable(summary) if c in exact]
+    g = codecgen_mod().ObjGen(summary, rng)
+    cases = []
+    nsess = 6 if res.tier == 'quick' else 40
+    for k in range(nsess):
+        objs = []
+        for cn in rng.sample(classes, rng.choice([1, 2, 3, 4])):
+            a = fc.api_object(g, summary, cn, rng)
+            a = {i: (v if len(v) <= 30 else v[:30]) for i, v in a.items()}
+            objs.append((cn, a))
+        if k % 2 == 0:
+            ti = next(i for i, f in enumerate(g.cls['AppText']['fields']) if f['name'] == 'text')
+            objs.append(('AppText', {ti: bytes(rng.randrange(32, 127) for _ in range(rng.choice([3, 50, 150])))}))
+        cases.append(fc.Case(rng.choice([0, 1]), rng.choice([1, 7, 16, 64]) if k < nsess - 1 else 131072, k % 3 != 0, objs))
+    out = fc.run_cases(pipe, res, cases, fexe, cexe, want_model=False)
+    if out is None:
+        return None
+    files = [o['file'] for o in out]
+    nat, _ = fc.read_files(res, files, fexe, want_model=False)
+    sessions = []
+    env = fc.fenv()
+    for ci, (c, o) in enumerate(zip(cases, out)):
+        if o['file'] is None:
+            continue
+        fhex = o['file'].hex()
+        nobj = len(c.objs)
+        # read sessions: complete, and early close after k objects for every k
+        for close in [-1] + list(range(0, nobj + 1)):
+            base = 'rsess file=%s close=%d' % (fhex, close)
+            sessions.append({'kind': 'read', 'base': base, 'case': ci, 'close': close, 'small': len(o['file']) < 1500})
+        wbase = 'wsess level=%d cs=%d rp=%d' % (c.level, c.cs, 1 if c.rp else 0)
+        for close in [-1] + list(range(0, nobj)):
+            sessions.append({'kind': 'write', 'base': wbase + ' close=%d' % close, 'tail': ' ' + c.tail(), 'case': ci, 'close': close, 'small': len(c.tail()) < 600})
+    # baseline run of every session, then deviations / random / pct schedules
+    def line(sx, extra):
+        return sx['base'] + ' ' + extra + sx.get('tail', '')
+    breq = [line(sx, 'policy=nonpreempt') for sx in sessions]
+    bans, rc, err = lib.psession(sexe, breq, env=env, timeout=3600)
+    if len(bans) != len(breq):
+        res.oblige('D:sched-session', False, '%d answers for %d requests %s' % (len(bans), len(breq), err[-500:]))
+        return None
+    allreq = []
+    owner = []
+    nrand = 4 if res.tier == 'quick' else 40
+    ndfs = 0
+    for si, (sx, a) in enumerate(zip(sessions, bans)):
+        sx['runs'] = [('nonpreempt', a)]
+        for sd in range(nrand):
+            allreq.append(line(sx, 'policy=random seed=%d' % (lib.seed() * 1000 + sd))); owner.append((si, 'random:%d' % sd))
+            allreq.append(line(sx, 'policy=pct seed=%d' % (lib.seed() * 1000 + sd))); owner.append((si, 'pct:%d' % sd))
+        if sx['small'] and 'outcome=done' in a and (res.tier == 'thorough' or (sx['case'] < 2)):
+            tr_ = parse_trace(a)
+            dev = sched_requests('', tr_)
+            if res.tier == 'quick' and len(dev) > 400:
+                dev = [dev[i] for i in sorted(rng.sample(range(len(dev)), 400))]
+            for (extra, i, alt) in dev:
+                allreq.append(line(sx, 'policy=nonpreempt' + extra)); owner.append((si, 'dev:%d:%d' % (i, alt)))
+                ndfs += 1
+    ans, rc, err = lib.psession(sexe, allreq, env=env, timeout=7200)
+    if len(ans) != len(allreq):
+        res.oblige('D:sched-session', False, '%d answers for %d requests %s' % (len(ans), len(allreq), err[-500:]))
+        return None
+    for (si, lab), rq, a in zip(owner, allreq, ans):
+        sessions[si]['runs'].append((lab, a))
+        sessions[si].setdefault('reqs', {})[lab] = rq
+    for sx, rq in zip(sessions, breq):
+        sx.setdefault('reqs', {})['nonpreempt'] = rq
+    res.corr['schedules_run'] = len(allreq) + len(breq)
+    res.corr['systematic_single_deviation_schedules'] = ndfs
+    res.corr['sessions'] = len(sessions)
+    return {'sessions': sessions, 'cases': cases, 'out': out, 'native': nat}
+
+
+def kv(ans):
+    return dict(x.split('=', 1) for x in ans.split() if '=' in x)
+
+
+def check_sched(res, prop):
+    fc, pipe, summary, exact, fexe, cexe = file_setup(res, prop, {'C06': C06_THEOREMS, 'C07': C07_THEOREMS, 'C11': C11_THEOREMS}[prop])
+    sexe = build_sched_harness(pipe, res)
+    if not sexe:
+        finish_codec(res)
+    rng = random.Random(lib.seed() * 3617 + 6)
+    R = sched_sessions(res, pipe, fexe, cexe, sexe, summary, exact, rng)
+    if R is None:
+        finish_codec(res)
+    res.corr['programs'] = 2
+    fails = {}
+    nruns = 0
+    for sx in R['sessions']:
+        c = R['cases'][sx['case']]
+        o = R['out'][sx['case']]
+        first = None
+        for lab, a in sx['runs']:
+            nruns += 1
+            res.corr['requests'] += 1
+            d = kv(a)
+            oc = d.get('outcome')
+            if prop in ('C06', 'C11') or True:
+                if oc in ('deadlock', 'watchdog', 'steplimit'):
+                    key = ('File', 'deadlock-%s-session' % sx['kind'])
+                    if prop == 'C06':
+                        fails.setdefault(key, (sx, lab, a[:300]))
+                    continue
+                if oc == 'crash' or (oc or '').startswith('escaped'):
+                    key = ('File', 'memory-error-under-schedule-%s-session' % sx['kind'])
+                    if prop == 'C11':
+                        fails.setdefault(key, (sx, lab, a[:300]))
+                    continue
+            if oc != 'done':
+                continue
+            if prop == 'C07':
+                if sx['kind'] == 'read':
+                    sig = (d.get('n'), d.get('null'), d.get('good'), d.get('eof'), d.get('hash'))
+                    if sx['close'] >= 0:
+                        sig = (d.get('n'), d.get('hash'))
+                else:
+                    sig = (d.get('n'), d.get('file'))
+                if first is None:
+                    first = (lab, sig)
+                elif sig != first[1]:
+                    fails.setdefault(('File', 'schedule-dependent-result-%s-session' % sx['kind']), (sx, lab, 'differs from schedule %s' % first[0]))
+                # against the schedule-free expectation
+                if sx['kind'] == 'read' and sx['close'] == -1:
+                    nd, st, nobjs = fc.split_read(R['native'][sx['case']])
+                    if d.get('n') != nd.get('n') or d.get('null') != '1' or d.get('eof') != '1' or d.get('good') != '0':
+                        fails.setdefault(('File', 'result-differs-from-sequential-read'), (sx, lab, a[:200]))
+                if sx['kind'] == 'write' and sx['close'] == -1 and o['file'] is not None and d.get('file') != o['file'].hex():
+                    fails.setdefault(('File', 'file-differs-from-native-write'), (sx, lab, 'bytes differ'))
+    res.corr['distinct'] = nruns
+    res.corr['rule'] = 'read and write sessions of the real File (1-5 objects, container sizes 1/7/16/64/131072, levels 0/1, complete and closed after k objects for every k) executed by the controlled scheduler: non-preemptive baseline, every single deviation from it at every scheduling decision (systematic) on the small sessions, seeded random and PCT-priority schedules on all; under ASan+UBSan'
+    res.corr['samples'] = [{'session': sx['base'][:100], 'runs': len(sx['runs']), 'first': sx['runs'][0][1][:100]} for sx in R['sessions'][:3]]
+    if prop == 'C11':
+        tsan_stress(res, pipe, summary, exact)
+    for (cl, kind), (sx, lab, det) in fails.items():
+        res.violation('schedule', '%s under schedule %s of a %s session (%s)' % (kind, lab, sx['kind'], det[:200]),
+                      {'class': cl, 'failure': kind, 'request': sx['reqs'].get(lab, ''), 'schedule': lab})
+    finish_codec(res)
+
+
+def check_C06(res):
+    check_sched(res, 'C06')
+
+
+def check_C07(res):
+    check_sched(res, 'C07')
+
+
+def tsan_stress(res, pipe, summary, exact):
+    """native sessions of the real File under ThreadSanitizer with varied consumer/producer pacing"""
+    import filechecks as fc
+    tr = pipe.regenerate()
+    fl = ['-O1', '-g', '-fsanitize=thread', '-fno-omit-frame-pointer']
+    a, f = lib.build_lib('tsan', fl)
+    if a is None:
+        res.oblige('D:build-lib-tsan', False, str(f)[:1500])
+        return
+    gen = sorted(glob_mod.glob(os.path.join(tr['cpp'], 'gen_reflect_*.cpp')))
+    texe, f = lib.build_exe('file_harness_tsan', [os.path.join(VERIF, 'harness', 'file_harness.cpp')] + gen, a, fl)
+    if texe is None:
+        res.oblige('D:build-file-harness-tsan', False, str(f)[:1500])
+        return
+    rng = random.Random(lib.seed() * 3623 + 11)
+    classes = [c for c in creatable(summary) if c in exact]
+    cases = fc.gen_cases(summary, rng, 'quick', classes, classes, 30 if res.tier == 'quick' else 300)
+    cases = [c for c in cases if c.objs]
+    for c in cases:
+        c.cs = rng.choice([7, 64, 4096])
+    reports = 0
+    nreq = 0
+    for pace in (0, 200, 2000):
+        env = dict(fc.fenv())
+        env.update({'VERIF_PACE_US': str(pace), 'TSAN_OPTIONS': 'halt_on_error=1 exitcode=66 report_signal_unsafe=0'})
+        wreq = ['writefile %s %s' % (c.opts(), c.tail()) for c in cases]
+        w, rc, err = lib.psession(texe, wreq, env=env, timeout=3600)
+        nreq += len(wreq)
+        files = [x.split('out=')[1] for x in w if x.startswith('writefile out=')]
+        bad = [(q, x) for q, x in zip(wreq, w) if not x.startswith('writefile out=')]
+        r, rc, err2 = lib.psession(texe, ['readfile ' + f for f in files], env=env, timeout=3600)
+        nreq += len(files)
+        bad += [('readfile ' + f, x) for f, x in zip(files, r) if 'outcome=ended' not in x]
+        for q, x in bad:
+            reports += 1
+            if reports <= 3:
+                # re-run the request alone to capture the report
+                o1, rc1, e1 = lib.session(texe, [q], env=env)
+                i = e1.find('WARNING: ThreadSanitizer')
+                res.violation('data-race', 'ThreadSanitizer / failure in a native session (pace %d us): %s' % (pace, x[:80]),
+                              {'class': 'File', 'failure': 'tsan-report', 'request': q, 'report': e1[i:i + 3000] if i >= 0 else e1[-1500:]})
+    res.corr['tsan_native_sessions'] = nreq
+    res.corr['tsan_reports'] = reports
+    res.oblige('D:tsan-native-sessions-clean', reports == 0, '%d sessions with a ThreadSanitizer report or failure' % reports)
+
+
+def check_C11(res):
+    check_sched(res, 'C11')
+
+
+C06_THEOREMS = ['Blf.Props.C06_queue_no_deadlock', 'Blf.Props.C06_queue_terminates', 'Blf.Props.C06_queue_no_lost_wakeup']
+C07_THEOREMS = ['Blf.Props.C07_queue_result']
+C11_THEOREMS = []
+
+
 def struct_pack(fmt, v):
     import struct
     return struct.pack(fmt, v)
@@ -1738,7 +1982,7 @@ def finish_codec(res):
     sys.exit(finish(res, kfilter))
 
 
-PROPS = {'C03': check_C03, 'C02': check_C02, 'C17': check_C17, 'C14': check_C14, 'C15': check_C15, 'C16': check_C16, 'C01': check_C01, 'C04': check_C04, 'C05': check_C05, 'C08': check_C08, 'C09': check_C09, 'C10': check_C10}
+PROPS = {'C03': check_C03, 'C02': check_C02, 'C17': check_C17, 'C14': check_C14, 'C15': check_C15, 'C16': check_C16, 'C01': check_C01, 'C04': check_C04, 'C05': check_C05, 'C08': check_C08, 'C09': check_C09, 'C10': check_C10, 'C06': check_C06, 'C07': check_C07, 'C11': check_C11}
 
 
 def main():
